@@ -140,7 +140,7 @@ Proof.
   intros Hit Hd. destruct (c09_items_cases pd Python [] Hdom it' Hit) as [(a & Ha & ->)|[(s & Hs & ->)|[(e & He & ->)|(c & Hc & ->)]]];
     cbn [py_decl_of] in Hd.
   - (* alias *)
-    cbn [c09_ra agenerics atype acomments aid] in Hd. c09_bind Hd ty s3 E. c09_ret Hd.
+    cbn [c09_ra agenerics atype acomments aid] in Hd. c09_bind Hd ty s3 E. c09_bind Hd utv s4 Etv. c09_ret Hd.
     assert (Hn : defname (c09_ent_alias a) = renamed (aid a)) by (unfold c09_def_name; cbn; apply app_nil_r).
     cbn [flat_map py_obs app]. split.
     + intros d [<-|[]]. split.
